@@ -4,8 +4,10 @@ META = {
     "text": "The TLA+ module specifies getSeed / getLeader / getActionsChecklist with the results of SHA-256 and math/rand as hidden choices "
             "(one seed per (wallet, safe block hash), one leader rank per (seed, number of unique operators), one heartbeat draw per seed); "
             "TLC checks on all pairs of calls that the leader is an operator, is invariant under permutation and repetition of the operator "
-            "list, that the checklist has the coded shape and order and that the window index arithmetic is right. The call history of the "
-            "real functions on three members, for every operator list (length <= 4 over 4 operators) and window enumerated by TLC and many "
+            "list and of the calls served before by the (long-lived) executor instance, that the checklist has the coded shape and order and "
+            "that the window index arithmetic is right; a hazard grain (cached operator list shuffled in place) shows the history dependence "
+            "in the model. The call history of the real functions on three members that each keep ONE executor per wallet and view for the "
+            "whole run and serve the seeds in different orders and subsets (plus fresh-executor controls), for operator lists (length <= 4 over 4 operators) and window enumerated by TLC and many "
             "concrete wallets / block hashes, is validated by TLC against the same module: one hidden choice must explain all calls.",
     "note": "Trusted: the order-preserving mapping of model operators to concrete addresses. Not modelled: the PRNG itself (any fixed "
             "permutation per seed is accepted), that only seed[:8] feeds the PRNG, the 1/16 heartbeat probability.",
@@ -21,19 +23,30 @@ def run(ctx):
     import re
     for cfg in ctx.pick(["MC_Coordination"], ["MC_Coordination_T", "MC_Coordination3_T"]):
         r = ctx.tlc(SPEC, "Coordination", cfg=cfg, coverage=True, label=cfg, timeout=2400)
-        ctx.require_coverage(r, ["GetSeed", "GetSeedFails", "GetLeader", "GetChecklist"], cfg)
+        ctx.require_coverage(r, ["NewExecutor", "GetSeed", "GetSeedFails", "GetLeader", "GetChecklist"], cfg)
+    # hazard grain (an executor that caches its operator list and shuffles it in place): the model must
+    # show the history dependence, otherwise LeaderHistoryIndependent / LeaderIdempotent are vacuous
+    hz = ctx.tlc(SPEC, "Coordination", cfg="MC_Hazard", label="MC_Hazard", expect=("violation",), dump_trace=False)
+    if hz.violated != "LeaderHistoryIndependent":
+        ctx.broken("hazard model violated %s instead of LeaderHistoryIndependent" % hz.violated)
+    if ctx.thorough:
+        hz = ctx.tlc(SPEC, "Coordination", cfg="MC_HazardIdem", label="MC_HazardIdem", expect=("violation",), dump_trace=False)
+        if hz.violated != "LeaderIdempotent":
+            ctx.broken("hazard model violated %s instead of LeaderIdempotent" % hz.violated)
     g = ctx.tlc(SPEC, "Gen_Coordination", cfg="Gen_Coordination", workers=1, label="Gen_Coordination", dump_trace=False)
     cases = ctx.read_emitted(g, "cases.ndjson")
     if len(cases) != 340 + 17:
         ctx.broken("expected 357 generated cases, got %d" % len(cases))
     go = ctx.gotest(PKG, "^TestVerif_C22_", ["c22_test.go"], inputs={"cases.ndjson": cases},
                     env={"VERIF_SEEDS": ctx.pick(24, 100), "VERIF_HB_SEEDS": ctx.pick(4, 16),
-                         "VERIF_LISTS_PER_SEED": ctx.pick(14, 30)},
+                         "VERIF_VIEWS": ctx.pick(6, 10)},
                     label="coordination", timeout=ctx.pick(900, 3000))
     ctx.absorb(go)
     cnt = go.reports["calls"].get("counters") or {}
     if (cnt.get("heartbeat_seeds", 0) < 1 or cnt.get("seeds", 0) < 10) and not ctx.violations:
         ctx.broken("seed selection too small: %s" % {k: cnt.get(k) for k in ("seeds", "heartbeat_seeds")})
+    if cnt.get("executors", 0) < 20 and not ctx.violations:
+        ctx.broken("too few long-lived executors: %s" % cnt.get("executors"))
     ranks = sorted(k for k in cnt if k.startswith("rank_"))
     ctx.note("leader ranks observed: %s" % ", ".join("%s x%d" % (k, cnt[k]) for k in ranks))
     if len([k for k in ranks if k.endswith("_of_4")]) < 2 and not ctx.violations:
@@ -64,10 +77,12 @@ def run(ctx):
                       {"trace_window": lines[max(0, hw - 25):hw + 2], "tlc": tr.out[-1500:]})
     return ctx.finish(
         level="model_checking",
-        rule="per seed (quick 24, thorough 100 concrete wallet x block-hash pairs, of which 4 / 16 draw a heartbeat): getSeed on 3 members and "
-             "2 blocks carrying the hash plus a block without hash; getLeader for a seeded sample (thorough: every 25th seed all 340) of the "
-             "operator lists of length <= 4 over 4 operators, each with two more views of the same set; getActionsChecklist for 17 blocks "
-             "(window 0, non-multiples, multiples and non-multiples of 4); non-trivial = list with repetition or not sorted / window index > 0",
+        rule="3 members x 4 wallets, each member with one long-lived executor per (wallet, view) for the whole run (quick ~12, thorough ~20-60 "
+             "views per wallet drawn from the TLC-enumerated operator lists of length <= 4 over 4 operators, always with a second view of the "
+             "same set); seeds (quick 24, thorough 100 wallet x block-hash pairs, 4 / 16 with a heartbeat draw) served in order by member 0, "
+             "reversed by member 1, as a shuffled 2/3 subset by member 2; every 5th question asked twice; fresh-executor controls (thorough: all "
+             "340 lists on fresh executors for 2 seeds); getSeed on 2 blocks carrying the hash plus a block without hash; getActionsChecklist for "
+             "17 blocks; non-trivial = repeated / unsorted list, a call on an executor that already served calls, window index > 0",
         assumptions=["model operators are mapped order-preservingly to concrete addresses (getLeader sorts by address string)",
                      "SHA-256 is treated as injective on the inputs used",
                      "any fixed PRNG outcome per seed is accepted; the distribution (uniform leader, 1/16 heartbeat) is not checked"],
